@@ -3,12 +3,15 @@ import Aiorpcx.C02.Model
 import Aiorpcx.Facts.C02
 /-! Line-protocol driver for the C02 model.
 
-    in : `B <max> <member>,<member>.. <call>,<call>..`   (`-` for an empty call list)
+    in : `B <member>,<member>.. <call>,<call>..`   (`-` for an empty call list)
            member = `R:<id>` | `N` | `X:<id>`; id as in the C01 driver
            (`i<int>` `h<int>` `bT` `bF` `s<cp>.<cp>` `n` `u<tag>`);
-           call = `<member index>:<encoded length of its response>` in completion order
-           (no id: the model answers under the id the member's item was bound to)
-         `S <max> <len> <member>`  single message (request / notification / invalid)
+           call = `<member index>:<encoded length of its response>:<max_response_size at the
+           moment this result is supplied>` in completion order
+           (no id: the model answers under the id the member's item was bound to; no limit
+           for the batch as a whole: what `max_response_size` was at receipt is not an input)
+         `S <lim> <len> <member>`  single message (request / notification / invalid);
+           `lim` = `max_response_size` when the result is supplied
          `T <isReq 0|1> <returnsMsg 0|1> <events>`  one `_throttled_request` task;
            events = string over `r` (handler returns) `t` (timeout fires) `w` (write accepted)
     out: for `B`: `E[<entries>]` if the batch is rejected at once, else one token per call
@@ -61,10 +64,10 @@ def showEntries (es : List (Entry Nat)) : String :=
 
 def parseCall (s : String) : Option (Call Nat) :=
   match s.splitOn ":" with
-  | [i, l] =>
-      match i.toNat?, l.toNat? with
-      | some idx, some len => some (idx, len)
-      | _, _ => none
+  | [i, l, m] =>
+      match i.toNat?, l.toNat?, m.toNat? with
+      | some idx, some len, some lim => some (idx, len, lim)
+      | _, _, _ => none
   | _ => none
 
 def parseEv : Char → Option (Ev Nat)
@@ -83,9 +86,9 @@ def handle (line : String) : String :=
   let inc := Facts.C02.sizeIncrement.getD 0
   let encLen : Id → Nat → Nat := fun _ r => r
   match (line.splitOn " ").filter (· ≠ "") with
-  | ["B", mx, mems, calls] =>
-      match mx.toNat?, (mems.splitOn ",").mapM parseMem with
-      | some max, some ms =>
+  | ["B", mems, calls] =>
+      match (mems.splitOn ",").mapM parseMem with
+      | some ms =>
           let cs? := if calls == "-" then some [] else (calls.splitOn ",").mapM parseCall
           match cs? with
           | some cs =>
@@ -93,15 +96,15 @@ def handle (line : String) : String :=
               | .errorBatch es => "E" ++ showEntries es
               | .items its b =>
                   if cs.isEmpty then "."
-                  else String.intercalate " " ((runCalls max inc encLen its b cs).map fun
+                  else String.intercalate " " ((runCalls inc encLen its b cs).map fun
                     | none => "-"
                     | some es => showEntries es)
           | none => "bad-op"
-      | _, _ => "bad-op"
+      | none => "bad-op"
   | ["S", mx, len, m] =>
       match mx.toNat?, len.toNat?, parseMem m with
-      | some max, some l, some mem =>
-          match repliesSingle max encLen mem l with
+      | some lim, some l, some mem =>
+          match repliesSingle encLen mem l lim with
           | [] => "none"
           | [.res _ i _] => "r@" ++ showId i
           | [.big _ i] => "b@" ++ showId i
